@@ -106,7 +106,9 @@ def model_line(d, stim, rstv, text):
             elif name in names:
                 vals.append(c["v"][names.index(name)])
             else:
-                raise ValueError("netlist input port %r is not a port of the design" % name)
+                # an input port the design does not have (e.g. the arguments of an inlined function show up as
+                # `f.x`): its value must not matter, so it is driven with a changing pattern
+                vals.append("%x" % (((0x5a5a5a5a5a5a5a5a5a5a5a5a5a5a5a5a >> (ci % 7)) ^ (ci * 0x9e3779b97f4a7c15)) & ((1 << w) - 1)))
         cyc.append(" ".join(vals))
     outp = [(name, w) for (dr, name, w) in ports if dr != "i"]
     return "%s|%s|%s" % (text, d["clk"] or "-", ";".join(cyc)), outp
@@ -182,13 +184,9 @@ def structural(d, text):
 
 
 def finding_class(d):
-    """stable identity of a known-finding class a design belongs to (or None)"""
-    p = d.get("params") or {}
-    if p.get("rst_ty") == "reset" and d["rst"] and d["reset_type"] != "async_low":
-        return "abstract-reset-ignores-reset_type:" + d["reset_type"]
-    if p.get("clk_ty") == "clock" and d["clk"] and d["clock_type"] == "negedge":
-        return "abstract-clock-ignores-clock_type:negedge"
-    return None
+    """identity of the known-finding class a (corpus) design reproduces, or None.  Generated designs avoid the
+    known classes (see vp/gen/synthdesigns.py), so only corpus reproducers carry a finding_key."""
+    return d.get("finding_key")
 
 
 def judge_case(d, stim, configs, hres, model_bin, runner=None):
@@ -325,7 +323,8 @@ def shrink(binary, model_bin, d, stim, cfg, key, stim_seed, budget=60):
 
 
 def replay_dict(d, stim, cfg, det):
-    r = {"design": {k: d[k] for k in ("family", "params", "src", "top", "clk", "rst", "reset_type", "clock_type", "ins", "outs")},
+    r = {"design": {k: d.get(k) for k in ("family", "params", "src", "top", "clk", "rst", "reset_type", "clock_type", "ins", "outs",
+                                          "finding_key", "addr_ports")},
          "config": cfg, "stimulus": stim}
     r.update({k: v for k, v in det.items() if k != "config"})
     return r
@@ -392,8 +391,8 @@ def run(tier, seed, replay):
         j = judge_case(d, stim, [cfg], h, model_bin)
         print("replay: rtl=%s synth=%s violations=%s" % (j.get("rtl"), j["synth"], [(k, w) for k, w, _ in j["viol"]]))
         for (k, w, det) in j["viol"]:
-            kk = rp.get("key") if rp.get("key", "").startswith(k) or finding_class(d) else k
-            res.violation(kk or k, w, replay_dict(d, stim, cfg, det))
+            key = finding_class(d) or (k if k != "mismatch" else "mismatch:%s" % d.get("family", "corpus"))
+            res.violation(key, w, replay_dict(d, stim, cfg, det))
         return res.finish()
 
     # 4. cases: corpus first, then generated
@@ -458,18 +457,24 @@ def run(tier, seed, replay):
     n_all = sum(status_hist.values())
     res.obligation("generator health: >= 70%% of (design, config) pairs synthesize (got %d/%d), front end rejects <= 15%% of designs (%d/%d)"
                    % (n_ok, n_all, front_err, len(designs)), n_all > 0 and n_ok >= 0.7 * n_all and front_err <= 0.15 * len(designs))
-    res.obligation("netlist = RTL on every known output bit, every cycle (%d netlist simulations, %d bits compared)" % (sims, tot_known),
-                   not [v for v in viols if v[1] == "mismatch"])
+    def is_known(v):
+        c = finding_class(designs[v[0]])
+        return bool(c) and c in res.known
+    fresh = [v for v in viols if not is_known(v)]
+    res.coverage["known_finding_reproducers"] = sorted({finding_class(designs[v[0]]) for v in viols if is_known(v)})
+    res.obligation("netlist = RTL on every known output bit, every cycle (%d netlist simulations, %d bits compared; known findings excluded)"
+                   % (sims, tot_known), not [v for v in fresh if v[1] == "mismatch"])
     res.obligation("every netlist passes the extracted check_netlist (acyclic, single driver, arities) and uses only the clock port as clock",
-                   not [v for v in viols if v[1] in ("illformed-netlist", "derived-clock")])
-    res.obligation("flip-flop edge / reset polarity / sync-ness equal the declared clock and reset types",
-                   not [v for v in viols if v[1] in ("ff-edge", "ff-reset-kind") and not finding_class(designs[v[0]])])
+                   not [v for v in fresh if v[1] in ("illformed-netlist", "derived-clock")])
+    res.obligation("flip-flop edge / reset polarity / sync-ness equal the declared clock and reset types (known findings excluded)",
+                   not [v for v in fresh if v[1] in ("ff-edge", "ff-reset-kind")])
+    res.obligation("no synthesizer / front-end panic on a generated design", not [v for v in fresh if v[1] in ("synth-panic", "frontend-panic")])
 
     # 5. violations: known classes first, then shrink and report the others
     reported = set()
     for (i, k, w, det) in viols:
         d = designs[i]
-        cls = finding_class(d) or d.get("finding_key")
+        cls = finding_class(d)
         if cls and (cls in res.known):
             res.violation(cls, w, {})
             continue
